@@ -45,6 +45,13 @@ def gen_case(rng, tier, damaged, single_ok=True):
         tree = {"name": "markers", "single": False, "dirs": [], "layout": "empties-run",
                 "files": [["a.bin", pl + 5, rng.randrange(1 << 30)]] +
                          [[f"m/{k:05d}.done", 0, 0] for k in range(n)] + [["z.bin", rng.choice([7, pl, 40000]), rng.randrange(1 << 30)]]}
+    elif c < 0.04:
+        # the smallest payloads there are: one or two bytes in total (next to empty files, or as a single file)
+        n = rng.choice([1, 1, 2])
+        tree = {"name": "tiny", "single": False, "dirs": [], "layout": "tiny-total",
+                "files": [["e0", 0, 0], ["one", n, rng.randrange(1 << 30)], ["z-empty", 0, 0]][rng.choice([0, 1]):]}
+        if single_ok and rng.random() < 0.5:
+            tree = {"name": "one", "single": True, "dirs": [], "layout": "tiny-total", "files": [["one", n, rng.randrange(1 << 30)]]}
     version = rng.choice([1, 2, 3])
     if rng.random() < 0.5:
         enc = ["tool", rng.choice(TOOL_ROUTES[version])]
